@@ -10,7 +10,7 @@ CONSTANTS
   MaxMin = 1000
   MaxForks = 1000
   MaxTouch = 0
-  AlignedOnly = TRUE
+  AlignedOnly = FALSE
   InFlightReads = FALSE
   CheckProjection = TRUE
 INVARIANT RetainedReadable
@@ -18,6 +18,7 @@ INVARIANT PrunedNeverDifferent
 INVARIANT NoWrongNode
 INVARIANT RootCanonical
 INVARIANT PrunedUnreadable
+INVARIANT LayoutPersistent
 CONSTRAINT Progress
 POSTCONDITION TraceAccepted
 CHECK_DEADLOCK FALSE
